@@ -36,8 +36,14 @@ fn accuracy_reserved(a: u8) -> bool {
     a <= 0x16 || (0x32..=0x7f).contains(&a) || a == 0xff
 }
 
-fn parse_roundtrip<const N: usize>() {
-    let bytes: [u8; N] = kani::any();
+/// `first`: concrete first octet (sdoId high nibble + messageType) or None = fully unstructured.
+/// With a symbolic messageType the parser's ten body arms are all explored and the unstructured
+/// 52-byte run needs > 25 min; the registered harnesses fix the first octet per message type.
+fn parse_roundtrip<const N: usize>(first: Option<u8>) {
+    let mut bytes: [u8; N] = kani::any();
+    if let Some(f) = first {
+        bytes[0] = f;
+    }
     let n: usize = kani::any();
     kani::assume(n <= N);
     let parsed = Message::deserialize(&bytes[..n]);
@@ -100,19 +106,43 @@ fn parse_roundtrip<const N: usize>() {
     }
     assert!(off == ml, "TLVs yielded by the iterator cover the suffix exactly");
 
-    kani::cover!(count >= 1 && ml < n && bytes[6] & 0x98 != 0, "accepted: TLV present, trailing padding, reserved flag bits set");
+    let tlv_fits = 34 + bl + 6 <= N;
+    kani::cover!(bytes[6] & 0x98 != 0 && (!tlv_fits || count >= 1), "accepted: reserved flag bits set, a TLV present where one fits");
 }
 
-#[kani::proof]
-#[kani::unwind(7)]
-fn c41_parse() {
-    parse_roundtrip::<52>();
+macro_rules! parse_harness {
+    ($name:ident, $n:expr, $first:expr, $unwind:expr) => {
+        #[kani::proof]
+        #[kani::unwind($unwind)]
+        fn $name() {
+            parse_roundtrip::<$n>($first);
+        }
+    };
 }
+// one harness per message type: header 34 + body + up to 12 bytes of TLV suffix (capped at 64 bytes)
+parse_harness!(c41_parse_sync, 56, Some(0x00), 14);
+parse_harness!(c41_parse_delay_req, 56, Some(0x01), 14);
+parse_harness!(c41_parse_pdelay_req, 64, Some(0x02), 12);
+parse_harness!(c41_parse_pdelay_resp, 64, Some(0x03), 12);
+parse_harness!(c41_parse_follow_up, 56, Some(0x08), 14);
+parse_harness!(c41_parse_delay_resp, 64, Some(0x09), 12);
+parse_harness!(c41_parse_pdelay_resp_fu, 64, Some(0x0a), 12);
+parse_harness!(c41_parse_announce, 64, Some(0x0b), 6);
+parse_harness!(c41_parse_signaling, 56, Some(0x0c), 14);
+parse_harness!(c41_parse_management, 60, Some(0x0d), 14);
+// fully unstructured (not registered: did not finish in 25 min, see report)
+parse_harness!(c41_parse_u52, 52, None, 7);
 
+/// Undefined messageType nibbles are rejected before anything else is looked at.
 #[kani::proof]
-#[kani::unwind(18)]
-fn c41_parse_64() {
-    parse_roundtrip::<64>();
+fn c41_parse_badtype() {
+    let bytes: [u8; 64] = kani::any();
+    let n: usize = kani::any();
+    kani::assume(n <= 64);
+    let t = bytes[0] & 0x0f;
+    kani::assume(body_len(t).is_none());
+    assert!(Message::deserialize(&bytes[..n]).is_err(), "undefined message types are rejected");
+    kani::cover!(n == 64 && t == 0x4, "type 4, full-length buffer");
 }
 
 // ------------------------------------------------------------------ build direction
